@@ -18,7 +18,8 @@ CONSTANTS MaxNodes,      \* node budget of the whole forest
           CustomCls,     \* function: custom class id -> [hasent]
           Metas,         \* metadata ids for custom nodes
           MaxLens,       \* deque maxlen encodings (0 = None, m+1 = maxlen m)
-          Factories      \* defaultdict factory ids (0 = None)
+          Factories,     \* defaultdict factory ids (0 = None)
+          Faults         \* malformed custom flatten results to inject ({} = none); at most one fault per forest
 
 VARIABLES stack, used
 vars == <<stack, used>>
@@ -67,6 +68,14 @@ WrapCustom(n) ==
                       IF CustomCls[c].hasent THEN [i \in 1..n |-> <<KSTR, i>>] ELSE <<>>,
                       CustomCls[c].hasent))
 
+RECURSIVE HasFault(_)
+HasFault(t) == t.fault # "" \/ \E i \in DOMAIN t.ch : HasFault(t.ch[i])
+WrapFaulty(n) ==
+  /\ "custom" \in Kinds
+  /\ \A i \in DOMAIN stack : ~HasFault(stack[i])
+  /\ \E f \in Faults :
+       WrapWith(n, [Mk("custom", used + 1, Kids(n), <<>>, 1, 1, <<>>, FALSE) EXCEPT !.fault = f])
+
 Wrap == /\ used < MaxNodes
         /\ \E n \in 0..MaxArity :
              /\ n <= Len(stack)
@@ -76,6 +85,7 @@ Wrap == /\ used < MaxNodes
                 \/ WrapDDict(n)
                 \/ WrapNT(n)
                 \/ WrapCustom(n)
+                \/ WrapFaulty(n)
 
 Next == PushLeaf \/ PushNone \/ PushSub \/ Wrap
 Spec == Init /\ [][Next]_vars
